@@ -63,6 +63,13 @@ func runMutant(dir, prop, name string) int {
 			return 0
 		}
 		r := cf.Results[m.Property]
+		if flt := os.Getenv("PCDUMP"); flt != "" {
+			for _, ob := range r.Obligations {
+				if strings.Contains(ob.Key, flt) {
+					fmt.Fprintf(os.Stderr, "  ok=%v note=%v %s [%s] %s\n", ob.OK, ob.Note, ob.Key, ob.Pos, ob.Detail)
+				}
+			}
+		}
 		var keys []string
 		for _, ob := range r.Obligations {
 			if !ob.OK && !ob.Note {
